@@ -1,10 +1,10 @@
 (* C15 — handler.New / Check: the function gets exactly the decoded params or is not called.
    This file only restates the property theorems; the model is hand/Handler.v, the proofs are
-   in hand/HandlerProofs.v and hand/HandlerExtra.v.  encoding/json and reflect are not modelled:
+   in hand/HandlerProofs.v, hand/HandlerExtra.v and hand/HandlerMore.v.  encoding/json and reflect are not modelled:
    `decode` and `zero` are universally quantified oracles (what encoding/json produces for a
    type, a strictness and a params value; the zero value of a type). *)
-From Coq Require Import List NArith Bool Sorting.Permutation.
-From JV Require Import Bytes Handler HandlerProofs HandlerExtra.
+From Coq Require Import List NArith Bool Arith Sorting.Permutation.
+From JV Require Import Bytes Handler HandlerProofs HandlerExtra PosElem HandlerMore.
 Import ListNotations.
 
 (* Check accepts exactly func(context.Context[, X]) (Y | error | (Y, error)), not variadic;
@@ -26,6 +26,40 @@ Theorem c15_check_errors :
      check (FFunc (TCtx :: rest) false [o0; o1]) = Err EResultNotError).
 Proof. exact check_errors. Qed.
 Print Assumptions c15_check_errors.
+
+(* What Check records, after SetStrict(s) and AllowArray(a), in the vocabulary of c15_wrap_spec:
+   the positional names are the struct field names of the argument type (c15_field_names says
+   which those are), the array form is in effect iff it is allowed and there is at least one
+   name, the translation applied to the params is c15_translate's `translate` with exactly those
+   names, and a stub is interposed iff the array form is in effect or strictness was asked for
+   and the type has no DisallowUnknownFields method of its own. *)
+Theorem c15_check_info : forall fn fi0 s a,
+  check fn = Ok fi0 ->
+  let fi := set_strict s (allow_array a fi0) in
+  (exists args outs, fn = FFunc (TCtx :: args) false outs /\
+     fi_arg fi = match args with [x] => Some x | _ => None end) /\
+  fi_pos_names fi = match struct_field_names (fi_arg fi) with Some ns => ns | None => [] end /\
+  fi_strict fi = s /\ fi_array fi = a /\ fi_unpack fi = false /\
+  array_eff fi = a && negb (is_nil (fi_pos_names fi)) /\
+  (forall p, translate_if_array fi p =
+     match struct_field_names (fi_arg fi) with
+     | Some (n :: ns) => if a then translate (n :: ns) p else Some p
+     | _ => Some p
+     end) /\
+  (forall x, fi_arg fi = Some x -> stubbed fi = array_eff fi || (s && negb (has_strict_method x))).
+Proof. exact check_info_options. Qed.
+Print Assumptions c15_check_info.
+
+(* handler.New = Check, then Wrap with the default options; it panics (None) exactly on the
+   values Check rejects *)
+Theorem c15_new :
+  forall (decode : ty -> bool -> pvalue -> option value) (zero : ty -> value) fn,
+    (new decode zero fn = None <-> ~ scheme fn) /\
+    (new decode zero fn = None <-> exists e, check fn = Err e) /\
+    (forall h, new decode zero fn = Some h -> exists fi, check fn = Ok fi /\ h = wrap decode zero fi) /\
+    (scheme fn -> exists fi, check fn = Ok fi /\ new decode zero fn = Some (wrap decode zero fi)).
+Proof. exact new_spec. Qed.
+Print Assumptions c15_new.
 
 (* For every accepted function, every option setting and every params value: the function is
    called once (OCall [v]) with v = what encoding/json decodes from the (array-translated)
@@ -77,6 +111,29 @@ Theorem c15_wrap_result_handler : forall (R E : Type) (fi : finfo) (y : R) (e : 
   decode_out fi y e = match e with None => HResult y | Some e' => HBoth y e' end.
 Proof. exact (@decode_out_handler). Qed.
 Print Assumptions c15_wrap_result_handler.
+
+(* ONE call of the handler, for every FuncInfo, params value and wrapped function f (f maps what
+   it is called with to its result and error): `handle` returns the inputs of all calls of f and
+   the handler's return value.  f is called at most once; exactly once - with the decoded
+   arguments, or the request itself - iff wrap says OCall / OCallRequest, and then the handler
+   returns decode_out of the result and error of THAT call (c15_wrap_result: unchanged); it is
+   not called iff the handler returns an InvalidParams error of its own. *)
+Theorem c15_handle_once :
+  forall (decode : ty -> bool -> pvalue -> option value) (zero : ty -> value) (R E : Type)
+         (fi : finfo) (p : pvalue) (f : call_input -> R * option E),
+    let calls := fst (handle decode zero fi p f) in
+    let ret := snd (handle decode zero fi p f) in
+    length calls <= 1 /\
+    (forall x, calls = [x] <->
+       (exists args, wrap decode zero fi p = OCall args /\ x = InArgs args) \/
+       (wrap decode zero fi p = OCallRequest /\ x = InRequest p)) /\
+    (forall x, calls = [x] -> ret = RReturn (decode_out fi (fst (f x)) (snd (f x)))) /\
+    (calls = [] <-> wrap decode zero fi p = OInvalidParams \/ wrap decode zero fi p = ONoParamsAccepted) /\
+    (calls = [] <-> is_invalid_params ret = true) /\
+    (ret = RInvalidParams <-> wrap decode zero fi p = OInvalidParams) /\
+    (ret = RNoParamsAccepted <-> wrap decode zero fi p = ONoParamsAccepted).
+Proof. exact (fun decode zero R E => @handle_spec decode zero R E). Qed.
+Print Assumptions c15_handle_once.
 
 (* strictness in effect = SetStrict or the type's own DisallowUnknownFields method, for every
    option combination, array-capable structs included (F12) *)
@@ -148,9 +205,52 @@ Theorem c15_field_names_rel : forall fs ns, field_names fs = ns <-> names_rel fs
 Proof. exact field_names_rel. Qed.
 Print Assumptions c15_field_names_rel.
 
-(* One wrapped handler used for many requests - in sequence or at the same time, in whatever
-   order they are taken up - answers every request as if it were the only one: the outcome of a
-   call is a function of (function descriptor, options, params) alone. *)
+(* Calls of one handler value do not interfere.  The handler closure made by Wrap allocates a
+   fresh scratch variable (and a fresh decoder stub around it) on EVERY call; the machine
+   `mrun shared fi ps sch` (hand/HandlerMore.v) makes that variable explicit: the calls for the
+   requests ps each take up to three steps (allocate the scratch cell / decode the params into it
+   / read it and call the function) and sch is the order in which the steps of all calls are
+   taken - any interleaving.  With per-call cells (shared = false, the code as it is) every call
+   is, at every moment, exactly where it would be had it run alone for the same number of steps
+   (`local`); whenever it has finished it finished with wrap's answer to ITS OWN params; and it
+   has finished after three steps, whatever the other calls did in between. *)
+Theorem c15_calls_do_not_interfere :
+  forall (decode : ty -> bool -> pvalue -> option value) (zero : ty -> value) fi ps sch,
+    let st := mrun decode zero fi false ps sch in
+    length (m_pcs st) = length ps /\
+    forall i p, nth_error ps i = Some p ->
+      nth_error (m_pcs st) i = Some (fst (local decode zero fi p (count_occ Nat.eq_dec sch i))) /\
+      nth_error (m_cells st) i = Some (snd (local decode zero fi p (count_occ Nat.eq_dec sch i))) /\
+      (forall o, nth_error (m_pcs st) i = Some (PcDone o) -> o = wrap decode zero fi p) /\
+      (3 <= count_occ Nat.eq_dec sch i -> nth_error (m_pcs st) i = Some (PcDone (wrap decode zero fi p))).
+Proof. exact scratch_no_interference. Qed.
+Print Assumptions c15_calls_do_not_interfere.
+
+(* every interleaving that lets all calls finish produces the answers of `serve` (= map wrap) *)
+Theorem c15_calls_complete :
+  forall (decode : ty -> bool -> pvalue -> option value) (zero : ty -> value) fi ps sch,
+    (forall i, i < length ps -> 3 <= count_occ Nat.eq_dec sch i) ->
+    map outcome_of (m_pcs (mrun decode zero fi false ps sch)) = map Some (serve decode zero fi ps).
+Proof. exact scratch_complete. Qed.
+Print Assumptions c15_calls_complete.
+
+(* ... and the statement has content: with ONE scratch variable for all calls (the allocation
+   hoisted out of the closure) there is an interleaving in which a function receives the
+   arguments decoded for another request *)
+Theorem c15_refuted_with_shared_scratch :
+  map outcome_of (m_pcs (mrun first_decode demo_zero (fi_of strict_fn) true scratch_reqs scratch_sched)) =
+    [Some (OCall [Val (bs [50]) []]); Some (OCall [Val (bs [50]) []])] /\
+  map outcome_of (m_pcs (mrun first_decode demo_zero (fi_of strict_fn) true scratch_reqs scratch_sched)) <>
+    map Some (serve first_decode demo_zero (fi_of strict_fn) scratch_reqs).
+Proof. exact scratch_refuted_with_shared_cell. Qed.
+Print Assumptions c15_refuted_with_shared_scratch.
+
+(* The two theorems below are facts about `map`: serve is DEFINED as `map (wrap fi)`, and that the
+   n-th element of `map f l` is f of the n-th element of l, and that map preserves permutations,
+   holds of every function f.  They only record that the model of a handler is a function of
+   (descriptor, options, params) and carry no information about the code; what makes calls
+   independent is c15_calls_do_not_interfere above, and that the implementation shares nothing
+   between calls is what the sequence and the concurrent families of the correspondence check test. *)
 Theorem c15_wrap_stateless :
   forall (decode : ty -> bool -> pvalue -> option value) (zero : ty -> value) fi ps1 p ps2,
     nth_error (serve decode zero fi (ps1 ++ p :: ps2)) (length ps1) = Some (wrap decode zero fi p) /\
